@@ -148,12 +148,12 @@ func VH_C18_match() {
 }
 
 //verif:harness prop=C18 quick=3 thorough=6 merge=concrete timeout=1500
-//verif:bounds Search: sequence of 2..4 (quick) / 2..5 (thorough) symbolic bytes over {a,A,c,C} and query of 1..2 symbolic bytes over the same alphabet: the result is the ascending list of all (overlapping) case-insensitive occurrences
+//verif:bounds Search: (sequence,query) lengths (2,1) (3,2) (4,2) quick, plus (4,1) (5,2) (5,3) thorough, symbolic bytes over {a,A,c,C} over the same alphabet: the result is the ascending list of all (overlapping) case-insensitive occurrences
 //verif:assume index/suffixarray: Lookup returns all occurrence offsets in an unspecified order (modelled: descending)
 func VH_C18_search() {
 	sh := vShard(3 + 3*vTier())
-	sn := 2 + sh%(3+vTier())
-	qn := 1 + sh/(3+vTier())%2
+	pick := [][2]int{{2, 1}, {3, 2}, {4, 2}, {4, 1}, {5, 2}, {5, 3}}[sh]
+	sn, qn := pick[0], pick[1]
 	alpha := func(name string, n int) []byte {
 		p := make([]byte, n)
 		for i := range p {
